@@ -2489,7 +2489,16 @@ impl TrustedRuntimeWal {
             next_lsn
         };
         let writer_epoch = store.acquire_runtime_writer_epoch(next_lsn)?;
-        let next_lsn = writer_epoch.started_at_lsn;
+        // Frames must stay LSN-contiguous with the committed history. A fresh
+        // epoch's `started_at_lsn` is only a lower bound derived from the epoch
+        // chain (it moves up by one for every predecessor epoch that committed
+        // nothing); adopting it here would leave an LSN hole that every later
+        // recovery rejects.
+        let next_lsn = if recovered_cursor.has_committed_history {
+            next_lsn
+        } else {
+            writer_epoch.started_at_lsn
+        };
         let writer_epoch = writer_epoch.epoch_id;
         let durability_mode = store.durability_mode();
         Ok(Self {
